@@ -38,6 +38,13 @@ var (
 	errs  []string
 )
 
+func grp(g string) string {
+	if g == "" {
+		return "Facts"
+	}
+	return g
+}
+
 func fail(format string, a ...any) { errs = append(errs, fmt.Sprintf(format, a...)) }
 
 func load(dir string) *pkg {
@@ -361,6 +368,7 @@ func (p *pkg) effectsOf(fd *ast.FuncDecl, pats []effPattern) []effect {
 // ---- output --------------------------------------------------------------------------------------
 
 type facts struct {
+	Groups       map[string][]string `json:"groups"`
 	Consts       map[string]int64    `json:"consts"`
 	ByteTables   map[string][]kv     `json:"byteTables"`
 	StringLists  map[string][]string `json:"stringLists"`
@@ -383,12 +391,12 @@ func leanBytes(s string) string {
 }
 
 func main() {
-	leanOut := flag.String("lean", "", "Lean file to (re)write")
+	leanOut := flag.String("lean", "", "Lean file of the common group (Facts.lean); other groups are written next to it as <Group>.lean")
 	jsonOut := flag.String("json", "", "JSON facts file to write")
 	flag.StringVar(&repo, "repo", "/repo", "perkeep working tree")
 	flag.Parse()
 
-	f := facts{Consts: map[string]int64{}, ByteTables: map[string][]kv{}, StringLists: map[string][]string{},
+	f := facts{Groups: map[string][]string{}, Consts: map[string]int64{}, ByteTables: map[string][]kv{}, StringLists: map[string][]string{},
 		Effects: map[string][]effect{}, Fingerprints: map[string]string{}}
 
 	// ---- constants ----
@@ -399,6 +407,7 @@ func main() {
 			continue
 		}
 		f.Consts[c.lean] = v
+		f.Groups[grp(c.group)] = append(f.Groups[grp(c.group)], "const:"+c.lean)
 	}
 
 	// ---- tables of pkg/blob/ref.go ----
@@ -457,6 +466,7 @@ func main() {
 			continue
 		}
 		f.Effects[es.lean] = p.effectsOf(fd, es.pats)
+		f.Groups[grp(es.group)] = append(f.Groups[grp(es.group)], "eff:"+es.lean)
 	}
 
 	// ---- fingerprints ----
@@ -473,67 +483,58 @@ func main() {
 
 	f.Errors = errs
 
-	// ---- Lean ----
-	var b strings.Builder
-	b.WriteString("import PkVerif.Base.Eff\n")
-	b.WriteString("/-! GENERATED by /verif/extract from /repo's working tree. Do not edit. -/\n")
-	b.WriteString("namespace Pk.Gen\n\n")
-	var names []string
-	for k := range f.Consts {
-		names = append(names, k)
+	// ---- Lean: one file per group ----
+	f.Groups["Facts"] = append(f.Groups["Facts"], "table:refSizes", "list:testRefTypes")
+	leanFiles := map[string]string{}
+	gnames := make([]string, 0, len(f.Groups))
+	for g := range f.Groups {
+		gnames = append(gnames, g)
 	}
-	sort.Strings(names)
-	for _, k := range names {
-		fmt.Fprintf(&b, "def %s : Nat := %d\n", k, f.Consts[k])
-	}
-	b.WriteString("\n")
-	names = names[:0]
-	for k := range f.ByteTables {
-		names = append(names, k)
-	}
-	sort.Strings(names)
-	for _, k := range names {
-		fmt.Fprintf(&b, "def %s : List (List Nat × Nat) := [", k)
-		for i, e := range f.ByteTables[k] {
-			if i > 0 {
-				b.WriteString(", ")
+	sort.Strings(gnames)
+	for _, g := range gnames {
+		items := append([]string(nil), f.Groups[g]...)
+		sort.Strings(items)
+		var b strings.Builder
+		b.WriteString("import PkVerif.Base.Eff\n")
+		b.WriteString("/-! GENERATED by /verif/extract from /repo's working tree. Do not edit. -/\n")
+		b.WriteString("namespace Pk.Gen\n\n")
+		for _, it := range items {
+			kind, name, _ := strings.Cut(it, ":")
+			switch kind {
+			case "const":
+				fmt.Fprintf(&b, "def %s : Nat := %d\n", name, f.Consts[name])
+			case "table":
+				fmt.Fprintf(&b, "def %s : List (List Nat × Nat) := [", name)
+				for i, e := range f.ByteTables[name] {
+					if i > 0 {
+						b.WriteString(", ")
+					}
+					fmt.Fprintf(&b, "(%s, %d)", leanBytes(e.Key), e.Val)
+				}
+				b.WriteString("]\n")
+			case "list":
+				fmt.Fprintf(&b, "def %s : List (List Nat) := [", name)
+				for i, e := range f.StringLists[name] {
+					if i > 0 {
+						b.WriteString(", ")
+					}
+					b.WriteString(leanBytes(e))
+				}
+				b.WriteString("]\n")
+			case "eff":
+				fmt.Fprintf(&b, "def %s : List Pk.EffAt := [", name)
+				for i, e := range f.Effects[name] {
+					if i > 0 {
+						b.WriteString(",")
+					}
+					fmt.Fprintf(&b, "\n  ⟨.%s, %v, %v⟩", e.Eff, e.Deferred, e.Cond)
+				}
+				b.WriteString("]\n")
 			}
-			fmt.Fprintf(&b, "(%s, %d)", leanBytes(e.Key), e.Val)
 		}
-		b.WriteString("]\n")
+		b.WriteString("\nend Pk.Gen\n")
+		leanFiles[g] = b.String()
 	}
-	names = names[:0]
-	for k := range f.StringLists {
-		names = append(names, k)
-	}
-	sort.Strings(names)
-	for _, k := range names {
-		fmt.Fprintf(&b, "def %s : List (List Nat) := [", k)
-		for i, e := range f.StringLists[k] {
-			if i > 0 {
-				b.WriteString(", ")
-			}
-			b.WriteString(leanBytes(e))
-		}
-		b.WriteString("]\n")
-	}
-	b.WriteString("\n")
-	names = names[:0]
-	for k := range f.Effects {
-		names = append(names, k)
-	}
-	sort.Strings(names)
-	for _, k := range names {
-		fmt.Fprintf(&b, "def %s : List Pk.EffAt := [", k)
-		for i, e := range f.Effects[k] {
-			if i > 0 {
-				b.WriteString(",")
-			}
-			fmt.Fprintf(&b, "\n  ⟨.%s, %v, %v⟩", e.Eff, e.Deferred, e.Cond)
-		}
-		b.WriteString("]\n")
-	}
-	b.WriteString("\nend Pk.Gen\n")
 
 	if len(errs) > 0 {
 		for _, e := range errs {
@@ -541,7 +542,10 @@ func main() {
 		}
 	}
 	if *leanOut != "" {
-		writeIfChanged(*leanOut, []byte(b.String()))
+		dir := filepath.Dir(*leanOut)
+		for g, src := range leanFiles {
+			writeIfChanged(filepath.Join(dir, g+".lean"), []byte(src))
+		}
 	}
 	if *jsonOut != "" {
 		js, _ := json.MarshalIndent(f, "", " ")
